@@ -297,8 +297,105 @@ package scale
 //@   inline
 //@   assigns nothing
 
+// Closed forms of the log-scale tick range at a level: ticks are the powers
+// lebase^n, n from lgfirst to lglast, of the level's effective base
+// Base^(2^level).
+//@ spec lebase(s Log, level int) float64 = pow(s.Base, pow(2, level))
+//@ spec llo(s Log, level int) float64 = log(lmin(s)) / log(lebase(s, level))
+//@ spec lhi(s Log, level int) float64 = log(lmax(s)) / log(lebase(s, level))
+//@ spec lgfirst(s Log, level int, out bool) float64 = out ? floor(llo(s, level) + (lhi(s, level) - llo(s, level)) * 1e-10) : ceil(llo(s, level) - (lhi(s, level) - llo(s, level)) * 1e-10)
+//@ spec lglast(s Log, level int, out bool) float64 = out ? ceil(lhi(s, level) - (lhi(s, level) - llo(s, level)) * 1e-10) : floor(lhi(s, level) + (lhi(s, level) - llo(s, level)) * 1e-10)
+//@ spec logdom(s Log) bool = s.Base >= 2 && s.Min <= s.Max && (s.Min > 0 || s.Max < 0)
+
 //@ func Log.spacingAtLevel
-//@   inline
+//@   model real
+//@   requires s != nil && logdom(*s) && level >= 0
+//@   ensures [base>1]   ebase > 1
+//@   ensures [closed-in]  !roundOut ==> ebase == lebase(*s, level) && firstN == lgfirst(*s, level, false) && lastN == lglast(*s, level, false)
+//@   ensures [closed-out] roundOut ==> ebase == lebase(*s, level) && firstN == lgfirst(*s, level, true) && lastN == lglast(*s, level, true)
+//@   ensures [nonempty-in] !roundOut ==> lastN - firstN + 1 >= 0
+//@   assigns nothing
+
+//@ func logTicker.CountTicks
+//@   model real
+//@   dispatch
+//@   requires t.s != nil && logdom(*t.s)
+//@   ensures [below]     level < 0 ==> result == 9223372036854775807
+//@   ensures [count-in]  level >= 0 && !t.roundOut ==> result == lglast(*t.s, level, false) - lgfirst(*t.s, level, false) + 1
+//@   ensures [count-out] level >= 0 && t.roundOut ==> result == lglast(*t.s, level, true) - lgfirst(*t.s, level, true) + 1
+//@   assigns nothing
+
+// logTicker.TicksAtLevel (not rounding out). Level >= 0: exactly the powers
+// lebase^n for n = lgfirst..lglast in ascending order - as many as CountTicks
+// says; for a negative domain their negatives, in ascending order again.
+// Level < 0 (the minor ticks below level 0): every value lies inside the domain.
+//@ func logTicker.TicksAtLevel
+//@   model real
+//@   requires t.s != nil && logdom(*t.s) && !t.roundOut
+//@   let B = lebase(*t.s, level)
+//@   let F = lgfirst(*t.s, level, false)
+//@   let G = lglast(*t.s, level, false)
+//@   ensures [type]       hastype(result, []float64)
+//@   ensures [fresh]      fresh(result.([]float64))
+//@   ensures [count]      level >= 0 ==> len(result.([]float64)) == G - F + 1
+//@   ensures [powers-pos] level >= 0 && t.s.Min > 0 ==> (forall j in 0..len(result.([]float64)) :: result.([]float64)[j] == pow(B, F + j))
+//@   ensures [powers-neg] level >= 0 && t.s.Min < 0 ==> (forall j in 0..len(result.([]float64)) :: result.([]float64)[j] == -pow(B, G - j))
+//@   ensures [minor-inside] level < 0 ==> (forall j in 0..len(result.([]float64)) :: t.s.Min <= result.([]float64)[j] && result.([]float64)[j] <= t.s.Max)
+//@   loop 1 invariant fresh(ticks) && (forall j in 0..len(ticks) :: min <= ticks[j] && ticks[j] <= max)
+//@   loop 2 (i) invariant fresh(ticks) && 0 <= i && (forall j in 0..len(ticks) :: min <= ticks[j] && ticks[j] <= max)
+//@   loop 3 invariant fresh(ticks) && firstN == F && lastN == G && base == B && n == firstN + len(ticks) && len(ticks) <= lastN - firstN + 1 && (forall j in 0..len(ticks) :: ticks[j] == pow(base, firstN + j))
+//@   loop 4 (i) invariant fresh(ticks) && 0 <= i && i <= (len(ticks) + 1) / 2
+//@   loop 4 (i) invariant level >= 0 ==> len(ticks) == G - F + 1 && (forall j in 0..i :: ticks[j] == -pow(B, F + len(ticks) - 1 - j)) && (forall j in len(ticks)-i..len(ticks) :: ticks[j] == -pow(B, F + len(ticks) - 1 - j)) && (forall j in i..len(ticks)-i :: ticks[j] == pow(B, F + j))
+//@   loop 4 (i) invariant level < 0 ==> (forall j in 0..i :: -max <= ticks[j] && ticks[j] <= -min) && (forall j in len(ticks)-i..len(ticks) :: -max <= ticks[j] && ticks[j] <= -min) && (forall j in i..len(ticks)-i :: min <= ticks[j] && ticks[j] <= max)
+//@   assigns nothing
+
+// Consecutive powers of a base > 1 ascend strictly (major ticks ascending).
+//@ lemma pow_ascending(b real, e real)
+//@   model real
+//@   requires b > 1
+//@   ensures pow(b, e) < pow(b, e + 1) && -pow(b, e + 1) < -pow(b, e)
+
+//@ func Log.CountTicks
+//@   model real
+//@   requires s != nil && logdom(*s)
+//@   ensures [below] level < 0 ==> result == 9223372036854775807
+//@   ensures [count] level >= 0 ==> result == lgcnt(*s, level)
+//@   assigns nothing
+
+//@ spec lgcnt(s Log, level int) float64 = lglast(s, level, false) - lgfirst(s, level, false) + 1
+
+//@ func Log.TicksAtLevel
+//@   model real
+//@   requires s != nil && logdom(*s)
+//@   ensures [type]       hastype(result, []float64)
+//@   ensures [fresh]      fresh(result.([]float64))
+//@   ensures [count]      level >= 0 ==> len(result.([]float64)) == lgcnt(*s, level)
+//@   ensures [powers-pos] level >= 0 && s.Min > 0 ==> (forall j in 0..len(result.([]float64)) :: result.([]float64)[j] == pow(lebase(*s, level), lgfirst(*s, level, false) + j))
+//@   ensures [powers-neg] level >= 0 && s.Min < 0 ==> (forall j in 0..len(result.([]float64)) :: result.([]float64)[j] == -pow(lebase(*s, level), lglast(*s, level, false) - j))
+//@   ensures [minor-inside] level < 0 ==> (forall j in 0..len(result.([]float64)) :: s.Min <= result.([]float64)[j] && result.([]float64)[j] <= s.Max)
+//@   assigns nothing
+
+// Log.Ticks: major ticks = the powers at the finest level >= 0 whose count is
+// at most o.Max, minor ticks = the level below (for level 0: the multiples
+// k*Base^n inside the domain). Precondition [monotone] as for Linear.Ticks.
+//@ func Log.Ticks
+//@   model real
+//@   abstract lebase, lgfirst, lglast
+//@   requires logdom(s)
+//@   requires [monotone] forall a int, b int :: 0 <= a && a <= b ==> lgcnt(s, a) >= lgcnt(s, b)
+//@   requires [countable] forall a int :: a >= 0 ==> lgcnt(s, a) <= 9223372036854775807
+//@   let lo = (o.MinLevel == 0 && o.MaxLevel == 0) ? -1000 : o.MinLevel
+//@   let hi = (o.MinLevel == 0 && o.MaxLevel == 0) ? 1000 : o.MaxLevel
+//@   ensures [none]   o.Max <= 0 ==> len(major) == 0 && len(minor) == 0
+//@   ensures [single] o.Max > 0 && s.Min == s.Max ==> len(major) == 1 && major[0] == s.Min && len(minor) == 1 && minor[0] == s.Max
+//@   check @ret3 [fail]   lo > hi || hi < 0 || (forall m in max(lo, 0)..hi+1 :: lgcnt(s, m) > o.Max)
+//@   check @ret4 [level]  lo <= level && level <= hi && (level >= 0 ==> lgcnt(s, level) <= o.Max)
+//@   check @ret4 [finest] forall m in max(lo, 0)..level :: lgcnt(s, m) > o.Max
+//@   check @ret4 [major-count] level >= 0 ==> len(major) == lgcnt(s, level) && len(major) <= o.Max
+//@   check @ret4 [major-pos] level >= 0 && s.Min > 0 ==> (forall j in 0..len(major) :: major[j] == pow(lebase(s, level), lgfirst(s, level, false) + j))
+//@   check @ret4 [major-neg] level >= 0 && s.Min < 0 ==> (forall j in 0..len(major) :: major[j] == -pow(lebase(s, level), lglast(s, level, false) - j))
+//@   check @ret4 [minor-count] level >= 1 ==> len(minor) == lgcnt(s, level - 1)
+//@   check @ret4 [minor-inside] level <= 0 ==> (forall j in 0..len(minor) :: s.Min <= minor[j] && minor[j] <= s.Max)
 //@   assigns nothing
 
 //@ func Log.Nice
